@@ -19,7 +19,7 @@ NameLens == {1, 40, 255}                   \* procedure name length
 PathLens == {0, 10, 255, 256, 700, 1023}   \* 0 = no import ; total length of an imported module's path
 LocalCounts == {0, 1, 3, 65535}
 RepeatCounts == {1, 2, 7}
-Shapes == 1 .. 8
+Shapes == 1 .. 10
 Windows == 0 .. ((NInstr - 1) \div Window)
 
 \* body shapes over instruction slots (numbers index the window): nesting depth up to 3
@@ -33,6 +33,9 @@ Shape(s, rc) ==
     [] s = 6 -> <<I(0), <<"repeat", rc, <<<<"repeat", 2, <<I(1), I(2)>>>>>>>>, <<"if", <<<<"while", <<I(3)>>>>>>, <<I(4), I(5)>>>>, I(6), I(7)>>
     [] s = 7 -> <<<<"if", <<<<"if", <<<<"if", <<I(0)>>, <<I(1)>>>>>>, <<I(2)>>>>>>, <<I(3)>>>>, I(4), I(5), I(6), I(7)>>
     [] s = 8 -> <<I(0), I(1), I(2), I(3), <<"while", <<I(4), I(5), I(6), I(7)>>>>>>
+    \* branches that are written but empty: `if.true ... else end` and `if.true else ... end`
+    [] s = 9 -> <<I(0), <<"ifee", <<I(1), I(2)>>>>, I(3), <<"repeat", rc, <<<<"ifee", <<I(4)>>>>>>>>, I(5), I(6), I(7)>>
+    [] s = 10 -> <<<<"ifet", <<I(0)>>>>, I(1), <<"while", <<<<"ifet", <<I(2), I(3)>>>>>>>>, I(4), I(5), I(6), I(7)>>
 
 VARIABLES sc
 \* the full product is far beyond what can be replayed; two slices cover every value of every dimension and all pairs
